@@ -49,6 +49,7 @@ type ctlOutcome struct {
 }
 
 func run(c *props.Ctx) {
+	funcsCache = map[*ssa.Package][]*ssa.Function{}
 	t := loadTables(c)
 	if t == nil {
 		return
@@ -66,8 +67,10 @@ func run(c *props.Ctx) {
 	onPath := 0
 	ctl := map[string]*site{}
 	var blockSite *site
+	var allSites []*site
 	for _, fn := range sites {
 		s := analyseSite(c, t, fn)
+		allSites = append(allSites, s)
 		if s.ctl {
 			ctl[fn.Name()] = s
 			continue
@@ -91,9 +94,17 @@ func run(c *props.Ctx) {
 	c.R.Extra["march_sites"] = len(sites) - len(ctl)
 	c.R.Extra["march_sites_on_canvas_path"] = onPath
 
-	ax := axisRules(c, path)
+	dead := map[*ssa.Call]bool{}
+	for _, s := range allSites {
+		for call := range s.deadCalls {
+			if len(ssau.Refs(call)) == 1 {
+				dead[call] = true
+			}
+		}
+	}
+	ax := axisRules(c, path, dead)
 	strideRules(c, path, blockSite)
-	padRule(c, path)
+	padRule(c, path, allSites)
 	weldRules(c, path, blockSite)
 	engineSelfTest(c, t)
 	siteControls(c, ctl, ax)
@@ -352,6 +363,16 @@ func runTables(c *props.Ctx, t *tables, s *site) {
 		} else {
 			s.hold("TAB-5", sub, s.refPos, fmt.Sprintf("corner %d sets bit value %d (not 1<<%d) but the tables close and are outward under this numbering", k, s.bitVal[k], k))
 		}
+	}
+	// POL-1: blocks are zero-filled and the threshold may be 0: a sample equal to the threshold must be outside
+	insideAtEq := s.flaggedAtEq == s.inside
+	switch {
+	case s.D != nil && insideAtEq:
+		s.violate("POL-1", "caseIndex:boundary", s.refPos, "a sample equal to the threshold counts as inside (non-strict comparison): cells of a block that no field wrote hold 0, so with threshold 0 every untouched cell is solid")
+	case s.D != nil:
+		s.hold("POL-1", "caseIndex:boundary", s.refPos, "all eight corners use the same strict comparison: the zero of an unwritten cell is outside for every threshold ≤ 0")
+	default:
+		s.hold("POL-1", "caseIndex:boundary", s.refPos, "all eight corners use the same comparison")
 	}
 	pol := "sample < threshold ⇒ bit set ⇒ inside"
 	if !s.inside {
